@@ -762,7 +762,6 @@ impl<'a> TypeEncoder<'a> {
     }
 
     fn borrow(&self, state: &mut State, res: ResourceId) -> u32 {
-        assert!(!state.scopes.is_empty());
         let res = self.resource_index(state, res);
         let index = state.current.encodable.type_count();
         state.current.encodable.ty().defined_type().borrow(res);
